@@ -28,8 +28,8 @@ def comp(kind, id=0, cr="-", srv="-", src="-", v=None, cm=""):
     return {"kind": kind, "id": id, "cr": cr, "srv": srv, "src": src, "v": v, "cm": cm}
 
 
-def building(r, integer=False, aux=False, max_steps=12):
-    n = r.choice([1, 2, 3, 4, 5, 12, 13, 24]) if max_steps >= 12 else r.randint(1, max_steps)
+def building(r, integer=False, aux=False, max_steps=12, steps=None):
+    n = steps or (r.choice([1, 2, 3, 4, 5, 12, 13, 24]) if max_steps >= 12 else r.randint(1, max_steps))
     comps = []
     nsys = r.randint(1, 4)
     big = 40 if integer else 5000.0
@@ -105,13 +105,13 @@ def building(r, integer=False, aux=False, max_steps=12):
     return comps
 
 
-def cases(seed, count, runs, integer=False, aux=False, locs=("PENINSULA", "BALEARES", "CANARIAS", "CEUTAMELILLA"), max_steps=12):
+def cases(seed, count, runs, integer=False, aux=False, locs=("PENINSULA", "BALEARES", "CANARIAS", "CEUTAMELILLA"), max_steps=12, steps=None):
     r = random.Random(seed)
     for i in range(count):
         fac = {"mode": "loc", "loc": r.choice(list(locs))}
         if r.random() < 0.3:
             ren, nren = r.choice([(0, 1300), (500, 1300), (1000, 0), (500, 500), (1000, 2000), (0, 2000)])
             fac["red1"] = [ren, nren, r.choice([0, 300])]     # (a district network always has some primary energy)
-        yield {"name": "random-%d-%d" % (seed, i), "src": {"comps": building(r, integer, aux, max_steps)}, "fac": fac,
+        yield {"name": "random-%d-%d" % (seed, i), "src": {"comps": building(r, integer, aux, max_steps, steps)}, "fac": fac,
                "kexp": r.choice([[0, 1], [1, 1], [1, 2], [3, 10]]), "area": r.choice([[1, 1], [5, 2], [200, 1], [1, 2]]),
                "lm": r.random() < 0.5, "runs": runs(r) if callable(runs) else runs}
